@@ -757,6 +757,14 @@ def _r4(run, prog, eff):
         ci = prog.cls(q)
         init = ci.methods.get('__init__')
         s = eff.summary(init)
+        if not s.regs:
+            # a registration block shared through a module-level helper (helper(self, self._plasma, self._beam)) is read where it is called
+            try:
+                from ..inline import prep, module_lookup
+                from ..effects import summarise as _summ
+                s = _summ(prep(init, module_lookup(ci.mod, prog=prog)))
+            except Exception:
+                pass
         for name in ('plasma', 'beam'):
             if prog.field(ci, '_' + name) is None:
                 continue
